@@ -67,6 +67,10 @@ def cases(tier, seed):
                     "find_step_size": True})
     for i, c in enumerate(out):
         c["split"] = i % 3 == 1
+        if c["algorithm"] == "optimizer":
+            c["ptype"] = ["Parameter", "torchtree.Parameter", "torchtree.core.parameter.Parameter"][i % 3]
+        elif "dual" in c["ops"] and i % 2 == 0:
+            c["dual_end"] = 4  # the adaptation window ends before most of the checkpoints are written
     return out
 
 
@@ -77,7 +81,7 @@ def P(i, v, dtype=F64, **kw):
 
 def defined(i, n, case, rng):
     """a parameter of n elements defined the way the case asks for (dtype, nn, tensor/full/zeros/full_like)"""
-    d = {"id": i, "type": "Parameter", "dtype": case["dtype"]}
+    d = {"id": i, "type": case.get("ptype", "Parameter"), "dtype": case["dtype"]}  # the three spellings the loader registers
     if case["nn"]:
         d["nn"] = True
     k = case["definition"]
@@ -152,7 +156,8 @@ def mcmc_spec(case, rng, ckpt):
         if kind in ("hmc-adaptive",):
             ad.append({"id": "ad.step", "type": "AdaptiveStepSize", "integrator": integ, "target_acceptance_probability": 0.7, "use_acceptance_rate": bool(rng.random() < 0.5)})
         if kind in ("hmc-dual", "hmc-dual+mass", "mixed"):
-            ad.append({"id": "ad.dual", "type": "DualAveragingStepSize", "integrator": integ, "target_acceptance_probability": 0.7})
+            ad.append(dict({"id": "ad.dual", "type": "DualAveragingStepSize", "integrator": integ, "target_acceptance_probability": 0.7},
+                           **({"end": int(case["dual_end"])} if case.get("dual_end") else {})))
         if kind in ("hmc-mass", "hmc-dual+mass", "mixed"):
             ad.append({"id": "ad.mass", "type": "MassMatrixAdaptor", "parameters": ["z"], "mass_matrix": "op.hmc.mass", "update_frequency": 2})
         if kind == "hmc-mass-window":
